@@ -90,3 +90,26 @@ func detachSign(k *openpgp.Entity, data []byte) []byte {
 func sameEntity(a, b *openpgp.Entity) bool {
 	return a != nil && b != nil && a.PrimaryKey != nil && b.PrimaryKey != nil && a.PrimaryKey.KeyId == b.PrimaryKey.KeyId
 }
+
+// detachSignText returns a binary detached signature of the TEXT kind (the kind
+// the cleartext framework uses) over text.
+func detachSignText(k *openpgp.Entity, text []byte) []byte {
+	var buf bytes.Buffer
+	if err := openpgp.DetachSignText(&buf, k, bytes.NewReader(text), pgpConfig()); err != nil {
+		panic(err)
+	}
+	return buf.Bytes()
+}
+
+// armorSignature wraps signature packets in a "PGP SIGNATURE" armor.
+func armorSignature(packets []byte) []byte {
+	var buf bytes.Buffer
+	w, err := armor.Encode(&buf, "PGP SIGNATURE", nil)
+	if err != nil {
+		panic(err)
+	}
+	w.Write(packets)
+	w.Close()
+	buf.WriteByte('\n')
+	return buf.Bytes()
+}
